@@ -40,7 +40,8 @@ PROP = {
                    "random and adversarial arguments (exactly collinear triples k*(dx,dy) and their off-by-one-unit neighbours at every "
                    "bit length 1..62, products differing only in the low word / only in the high word / only in sign), in the build "
                    "that compiles the __int128 branch AND in the build that compiles the portable 64x64 branch, and compares every "
-                   "answer with __int128 ground truth. PointInPolygon is run on all points of a 9x9 lattice (scaled 1..2^22, plus "
+                   "answer with __int128 ground truth. PointInPolygon is run exhaustively on every 3- and 4-vertex polygon of a 4x4 lattice against "
+                   "a 9x9 query lattice, and on all points of a 9x9 lattice (scaled 1..2^22, plus "
                    "on-edge points and their unit neighbours) against random lattice polygons with horizontal edges, repeated points "
                    "and spikes and compared with an exact even-odd crossing test; GetSegmentIntersectPt (default and HI_PRECISION "
                    "variants) is compared with the exact rational crossing for |coord| <= 2^40; Area with the exact shoelace sum in "
@@ -52,7 +53,7 @@ PROP = {
     "rule": ("one case = a bundle of calls of one kind: 64 Multiply pairs | 64 ProductsAreEqual 4-tuples | 48 point triples "
              "(CrossProductSign + IsCollinear each) | one lattice polygon with 81..115 query points | 32 segment pairs | 1-6 paths for Area "
              "(thorough tier: bundles 4x larger); "
-             "grid cases are chunks of 1024 consecutive tuples of the exhaustive enumeration. evaluations counts library calls. "
+             "grid cases are chunks of 1024 consecutive tuples (64 polygons) of the exhaustive enumeration. evaluations counts library calls. "
              "A bundle is non-trivial iff: Multiply - some product has a non-zero high word and all four partial products; "
              "ProductsAreEqual - it contains both equal and unequal products; triples - at least one exactly collinear and one "
              "non-collinear triple inside the no-overflow premise; PointInPolygon - the exact answers comprise at least two of "
@@ -63,7 +64,7 @@ PROP = {
                     "GetSegmentIntersectPt accuracy is judged only when the exact crossing lies on both closed segments; "
                     "'on the first segment' is read as: inside the first segment's bounding box and the segment's line passes through the closed unit square around the returned point",
                     "Area is judged for |coord| <= 2^61 (sums/differences of two coordinates must not overflow) against (n+2)*2^-52*sum|term|"],
-    "floor": _q(150000, 1000000),
+    "floor": _q(150000, 2000000),
     "must_count": _q(
         ["mul_calls", "pae_calls_branch_int128", "pae_calls_branch_portable", "tri_calls_branch_int128", "tri_calls_branch_portable",
          "tri_truth_collinear", "pip_calls", "pip_truth_on", "pip_truth_inside", "isect_calls_variant_default", "isect_calls_variant_hp",
@@ -75,7 +76,8 @@ PROP = {
          "grid_pae_tuples_done_plain", "grid_pae_tuples_done_portable"]),
     "exhaustive": False,
     "exhaustive_note": ("exhaustive over the boundary grid only (all 22^4 ProductsAreEqual tuples, all point triples over 10 (quick) / 12 "
-                        "(thorough) boundary coordinates, all 40^2 Multiply pairs, in both arithmetic branches; completeness is checked by "
+                        "(thorough) boundary coordinates, all 40^2 Multiply pairs, all 69632 three-/four-vertex polygons of a 4x4 lattice x 81 query "
+                        "points, in both builds; completeness is checked by "
                         "the orchestrator: *_done_* == *_expected_* counters) and over the 9x9 lattice of every generated polygon"),
     "post": _post,
     "jobs": [
@@ -83,10 +85,10 @@ PROP = {
         {"mon": "mon_c18", "cfg": "plain", "cases": _q(_chunks("quick"), _chunks("thorough")), "args": ["--mode", "grid"], "shards": 4},
         {"mon": "mon_c18", "cfg": "portable", "cases": _q(_chunks("quick"), _chunks("thorough")), "args": ["--mode", "grid"], "shards": 4},
         # random + adversarial: everything on the __int128 branch / default GetSegmentIntersectPt
-        {"mon": "mon_c18", "cfg": "plain", "cases": _q(150000, 1000000), "args": ["--mode", "rand"]},
+        {"mon": "mon_c18", "cfg": "plain", "cases": _q(150000, 2000000), "args": ["--mode", "rand"]},
         # predicates on the portable 64x64 branch
-        {"mon": "mon_c18", "cfg": "portable", "cases": _q(75000, 500000), "args": ["--mode", "rand", "--kinds", "mul,pae,tri"], "seed_off": 1000003},
+        {"mon": "mon_c18", "cfg": "portable", "cases": _q(75000, 1000000), "args": ["--mode", "rand", "--kinds", "mul,pae,tri"], "seed_off": 1000003},
         # GetSegmentIntersectPt, CLIPPER2_HI_PRECISION variant
-        {"mon": "mon_c18", "cfg": "hp", "cases": _q(40000, 250000), "args": ["--mode", "rand", "--kinds", "isect"], "seed_off": 2000003},
+        {"mon": "mon_c18", "cfg": "hp", "cases": _q(40000, 500000), "args": ["--mode", "rand", "--kinds", "isect"], "seed_off": 2000003},
     ],
 }
